@@ -7,15 +7,19 @@ STRENGTHENED = {
  'C05_2': "missed at first for the same reason as C04_1; same generator extension",
  'C07_1': "missed at first: tap-tree leaf scripts were always shorter than 253 bytes; generator now draws leaf scripts on both sides of the 0xfd boundary (gen/pset.rs)",
  'C17_1': "missed at first: the HRP replacement alphabet was the representative's own letter case only; alphabet extended to [a-zA-Z0-9-_.! ]",
+ 'C04_3': "round 2; missed at first: spent outputs were either fully explicit or fully blinded; the generator now also draws partially blinded spent outputs (confidential asset with explicit amount, explicit asset with confidential amount) (gen/ct.rs)",
+ 'C05_3': "round 2; missed at first: zero-value outputs were only placed on standard templates or on OP_RETURN / oversize / empty scripts; explicit_balance now also places them on scripts that merely cannot succeed (reserved or invalid first opcode, OP_RETURN not first, exactly 10000 bytes), which must be rejected",
+ 'C05_4': "round 2; missed at first: all verifying bases came from Transaction::blind (fully blinded outputs only); new sub-check tamper_hybrid builds bases from the zkp primitives with amount-only and asset-only blinded outputs",
+ 'C06_3': "round 2; missed at first: no near-valid class had a human-readable part containing the separator character; class hrp-containing-separator added to near_valid",
  'C19_2': "missed at first: extension spaces had at most 8 entries; generator now also draws 252/253/254/300 entries (gen/mod.rs)",
 }
 for d in sorted(glob.glob('/verif/seeded/C*_*')):
     name = os.path.basename(d)
     pid, n = name.split('_')
-    src = '/tmp/seed_out/%s' % pid
+    rnd = 1 if int(n) <= 2 else 2
     meta = {}
-    if os.path.exists('%s/meta%s.json' % (src, n)):
-        meta = json.load(open('%s/meta%s.json' % (src, n)))
+    if os.path.exists(d + '/agent_meta.json'):
+        meta = json.load(open(d + '/agent_meta.json'))
     elif os.path.exists(d + '/meta.json'):
         meta = json.load(open(d + '/meta.json'))
     out = {
@@ -25,9 +29,9 @@ for d in sorted(glob.glob('/verif/seeded/C*_*')):
         "what_it_breaks": meta.get("what_it_breaks"),
         "needs_to_manifest": meta.get("needs_to_manifest"),
         "why_existing_tests_pass": meta.get("why_existing_tests_pass"),
-        "origin": "written by a fresh sub-agent that was given only the text of property %s and a scratch git worktree of /repo under /tmp (nothing from /verif)" % pid,
+        "origin": "round %d: written by a fresh sub-agent that was given only the text of property %s and a scratch git worktree of /repo under /tmp (nothing from /verif)" % (rnd, pid),
     }
-    conf = '%s/confirm%s.txt' % (src, n)
+    conf = d + '/confirm.txt'
     if os.path.exists(conf):
         lines = [l.strip() for l in open(conf) if l.strip()]
         # de-duplicate (one confirmation was started twice)
